@@ -217,7 +217,16 @@ func c12e2e(c *wk.Ctx) {
 			sess := w.sessionPath("s")
 			session.NewFromFile(sess).Store(&session.Session{Key: key, Hash: mtp.AuthKeyID(key), Salt: salt, Hostname: srv.Addr})
 			// the configured host is a closed port: only the stored address can work
-			m, err := mtproto.NewMTProto(mtproto.Config{AuthKeyFile: sess, ServerHost: "127.0.0.1:1", PublicKey: &srv.RSA.PublicKey})
+			cfg := mtproto.Config{AuthKeyFile: sess, ServerHost: "127.0.0.1:1", PublicKey: &srv.RSA.PublicKey}
+			if k%3 == 2 {
+				// the same session held by the application's own storage (Config.SessionStorage)
+				st := &memStore{}
+				st.Store(&session.Session{Key: key, Hash: mtp.AuthKeyID(key), Salt: salt, Hostname: srv.Addr})
+				os.Remove(sess)
+				cfg = mtproto.Config{SessionStorage: st, ServerHost: "127.0.0.1:1", PublicKey: &srv.RSA.PublicKey}
+				c.Count("e2e.resumes_from_application_storage", 1)
+			}
+			m, err := mtproto.NewMTProto(cfg)
 			if err != nil {
 				c.Viol("C12", idx, "e2e/new-client", err.Error(), nil)
 				w.close()
